@@ -73,6 +73,35 @@ B = [
   "                Some(_) => Ok(TlsState::AskResumeSession),",
   "                Some(id) if !id.is_empty() => Ok(TlsState::AskResumeSession),",
   "a ClientHello whose session id is Some(empty) counts as carrying no session id"),
+ # ---- added after the third audit
+ ("b-c03-reject-empty-certificate-entry", ["C03", "C10", "C06", "C08"], "tls_handshake.rs",
+  "    many0(complete(map(length_data(be_u24), |data| RawCertificate {\n        data,\n    })))(i)",
+  "    many0(complete(map(verify(length_data(be_u24), |d: &[u8]| !d.is_empty()), |data| RawCertificate {\n        data,\n    })))(i)",
+  "a zero-length ASN.1Cert entry (RFC: opaque ASN.1Cert<1..2^24-1>) stops the certificate list"),
+ ("b-c03-server-done-must-be-empty", ["C03", "C10", "C06", "C08"], "tls_handshake.rs",
+  "    map(take(len), TlsMessageHandshake::ServerDone)(i)",
+  "    if len != 0 {\n        return Err(Err::Error(make_error(i, ErrorKind::LengthValue)));\n    }\n    map(take(len), TlsMessageHandshake::ServerDone)(i)",
+  "a ServerHelloDone with a body (RFC: struct { } ServerHelloDone) is rejected"),
+ ("b-c07-truncated-alert-is-an-error", ["C07", "C01"], "tls_records_parser.rs",
+  "                return self.parse_record_nocopy(record);\n            }\n\n            // before defragmenting",
+  "                return parse_tls_record_with_header(record.data, &record.hdr);\n            }\n\n            // before defragmenting",
+  "parse_record answers a truncated / empty alert or ChangeCipherSpec record with the record layer's error instead of Incomplete"),
+ ("b-c09-heartbeat-serializer", ["C09"], "tls_serialize.rs",
+  "        TlsMessage::ChangeCipherSpec => gen_tls_changecipherspec()(out),\n        _ => Err(GenError::NotYetImplemented),",
+  "        TlsMessage::ChangeCipherSpec => gen_tls_changecipherspec()(out),\n        TlsMessage::Heartbeat(h) => tuple((be_u8(h.heartbeat_type.0), be_u16(h.payload_len), slice(h.payload), slice(&[0x5au8; 16][..])))(out),\n        _ => Err(GenError::NotYetImplemented),",
+  "the serializer learns heartbeat messages and adds 16 bytes of padding of its own (RFC 6520 minimum)"),
+ ("b-c08-ccs-after-cke-from-client-only", ["C08"], "tls_states.rs",
+  "(TlsState::ClientKeyExchange,     &TlsMessage::ChangeCipherSpec, _) => Ok(TlsState::ClientChangeCipherSpec),",
+  "(TlsState::ClientKeyExchange,     &TlsMessage::ChangeCipherSpec, true) => Ok(TlsState::ClientChangeCipherSpec),",
+  "after ClientKeyExchange a ChangeCipherSpec is accepted from the client only (the direction clause of the statement is about handshake messages)"),
+ ("b-c08-hello-request-from-server-only", ["C08"], "tls_states.rs",
+  "        (s,                          &TlsMessageHandshake::HelloRequest, _)             => Ok(s),",
+  "        (s,                          &TlsMessageHandshake::HelloRequest, false)         => Ok(s),",
+  "a HelloRequest sent BY THE CLIENT is rejected ('each handshake message only from the peer that sends it' against 'ignored in every state except None')"),
+ ("b-c03-client-hello-needs-a-cipher", ["C03", "C10", "C06"], "tls_handshake.rs",
+  "    let (i, ciphers_len) = be_u16(i)?;",
+  "    let (i, ciphers_len) = verify(be_u16, |&n| n >= 2)(i)?;",
+  "a ClientHello offering no cipher suite (RFC: cipher_suites<2..2^16-2>) is rejected (C09, which quantifies over such hellos, is not run)"),
 ]
 
 def sh(cmd):
